@@ -636,5 +636,7 @@ def run(ck):
 #                                                                                            server-replaced-by-announcement-without-valid-seqnum
 #   not breaks of the property (exit unchanged, as expected): the no-valid-seqnum test replaced by `if False:` only turns such
 #   announcements into KeyError/TypeError aborts (already reported key); storing announcements of unsubscribed services.
-# Proposed fix (got_announcements: per-announcement try/except Exception around unsign + _process_announcement) applied to a
-# scratch copy: exit 0.
+# (both abort-batch keys were genuine findings on the original tree; fixed in /repo since.)
+#   seeded/C34-3 and selftest c34-signature-checked-against-first-message-only: a memo of verified signature strings lets a
+#   re-used signature through with another message / key ...... caught: delivers-unauthenticated-announcement (reuse-sig-* kinds)
+# The list lives in selftest/breaks_c34.py (tools/selftest.py --prop C34): 11/11 caught; seeded C34-1..4: 4/4 caught.
